@@ -22,13 +22,13 @@ def WInv (s : State) : Prop :=
     (s.root = false → s.segs = []) ∧ (∀ k, k ∈ s.index ↔ (s.hasIndex = true ∧ k < c + 1))
   | .compact 1 =>
     s.nodes = c ∧ s.labels = c ∧ (∀ k, k ∈ s.runs ++ s.segs ↔ k < c) ∧ (∀ k, k ∈ s.store ↔ k ∈ s.segs) ∧
-    (s.root = false → s.segs = []) ∧ (∀ k, k ∈ s.index ↔ (s.hasIndex = true ∧ k < c))
+    (s.root = false → s.segs = []) ∧ (∀ k, k ∈ s.index ↔ (s.hasIndex = true ∧ k < c)) ∧ s.cap = some s.runs
   | .compact 2 | .compact 3 =>
     s.nodes = c ∧ s.labels = c ∧ (∀ k, k ∈ s.runs ++ s.segs ↔ k < c) ∧ (∀ k, k ∈ s.store ↔ k ∈ s.runs ++ s.segs) ∧
-    (s.root = false → s.segs = []) ∧ (∀ k, k ∈ s.index ↔ (s.hasIndex = true ∧ k < c))
+    (s.root = false → s.segs = []) ∧ (∀ k, k ∈ s.index ↔ (s.hasIndex = true ∧ k < c)) ∧ s.cap = some s.runs
   | .compact 4 =>
     s.nodes = c ∧ s.labels = c ∧ (∀ k, k ∈ s.runs ++ s.segs ↔ k < c) ∧ (∀ k, k ∈ s.store ↔ k ∈ s.runs ++ s.segs) ∧
-    s.root = true ∧ (∀ k, k ∈ s.index ↔ (s.hasIndex = true ∧ k < c))
+    s.root = true ∧ (∀ k, k ∈ s.index ↔ (s.hasIndex = true ∧ k < c)) ∧ s.cap = some s.runs
   | .compact 5 =>
     s.nodes = c ∧ s.labels = c ∧ (∀ k, k ∈ s.pending ++ s.segs ↔ k < c) ∧ (∀ k, k ∈ s.store ↔ k ∈ s.pending ++ s.segs) ∧
     s.root = true ∧ (∀ k, k ∈ s.index ↔ (s.hasIndex = true ∧ k < c)) ∧ s.runs = []
@@ -50,11 +50,12 @@ def SInv (s : State) (σ : Snap) : Prop :=
 
 structure Inv (h0 : Bool) (s : State) : Prop where
   hasIdx : s.hasIndex = h0
+  rbl : s.readBeforeLock = false
   w : WInv s
   snaps : ∀ j σ, s.snaps j = some σ → SInv s σ
 
 theorem inv_init (h0 : Bool) : Inv h0 (init h0) :=
-  ⟨rfl, by simp [WInv, init], by intro j σ h; simp [init] at h⟩
+  ⟨rfl, rfl, by simp [WInv, init], by intro j σ h; simp [init] at h⟩
 
 @[simp] theorem markAll_snaps (f : Snap → Snap) (s : State) (j : Nat) :
     (markAll f s).snaps j = (s.snaps j).map f := rfl
@@ -112,13 +113,13 @@ theorem snaps_mark (s e : State) (f : Snap → Snap) (hs : e.snaps = s.snaps)
 
 theorem inv_commitStep {h0 : Bool} {s s' : State} (hi : Inv h0 s) (hs : step s .commitStep = some s') :
     Inv h0 s' := by
-  obtain ⟨hh, hw, hsn⟩ := hi
+  obtain ⟨hh, hrb, hw, hsn⟩ := hi
   simp only [step] at hs
   split at hs
   · -- walAndIndex
     rename_i hwi
     cases hs
-    refine ⟨hh, ?_, ?_⟩
+    refine ⟨hh, hrb, ?_, ?_⟩
     · simp only [WInv, hwi, markAll] at hw ⊢
       obtain ⟨a, b, c, d, e, f⟩ := hw
       refine ⟨a, b, c, d, e, ?_⟩
@@ -135,14 +136,14 @@ theorem inv_commitStep {h0 : Bool} {s s' : State} (hi : Inv h0 s) (hs : step s .
     · exact snaps_mark s _ touchCommit rfl (fun σ h => sinv_touch s _ σ _ (Or.inl rfl) rfl rfl h) hsn
   · rename_i hwi
     cases hs
-    refine ⟨hh, ?_, ?_⟩
+    refine ⟨hh, hrb, ?_, ?_⟩
     · simp only [WInv, hwi, markAll] at hw ⊢
       obtain ⟨a, b, c, d, e, f⟩ := hw
       exact ⟨by omega, b, c, d, e, f⟩
     · exact snaps_mark s _ touchCommit rfl (fun σ h => sinv_touch s _ σ _ (Or.inl rfl) rfl rfl h) hsn
   · rename_i hwi
     cases hs
-    refine ⟨hh, ?_, ?_⟩
+    refine ⟨hh, hrb, ?_, ?_⟩
     · simp only [WInv, hwi, markAll] at hw ⊢
       obtain ⟨a, b, c, d, e, f⟩ := hw
       exact ⟨a, by omega, c, d, e, f⟩
@@ -150,7 +151,7 @@ theorem inv_commitStep {h0 : Bool} {s s' : State} (hi : Inv h0 s) (hs : step s .
   · -- publishRun: the commit point
     rename_i hwi
     cases hs
-    refine ⟨hh, ?_, ?_⟩
+    refine ⟨hh, hrb, ?_, ?_⟩
     · simp only [WInv, hwi, markAll] at hw ⊢
       obtain ⟨a, b, c, d, e, f⟩ := hw
       refine ⟨a, b, ?_, d, e, f⟩
@@ -173,47 +174,51 @@ theorem inv_commitStep {h0 : Bool} {s s' : State} (hi : Inv h0 s) (hs : step s .
 
 theorem inv_compactStep {h0 : Bool} {s s' : State} (hi : Inv h0 s) (hs : step s .compactStep = some s') :
     Inv h0 s' := by
-  obtain ⟨hh, hw, hsn⟩ := hi
-  simp only [step] at hs
+  obtain ⟨hh, hrb, hw, hsn⟩ := hi
+  simp only [step, hrb, Bool.false_eq_true, if_false] at hs
   split at hs
   · rename_i hwi
     split at hs
     · cases hs
     · cases hs
-      refine ⟨hh, ?_, ?_⟩
-      · simp only [WInv, hwi, markAll] at hw ⊢; exact hw
+      refine ⟨hh, rfl, ?_, ?_⟩
+      · simp only [WInv, hwi, markAll] at hw ⊢
+        obtain ⟨a, b, c, d, e, f⟩ := hw
+        exact ⟨a, b, c, d, e, f, trivial⟩
       · exact snaps_mark s _ touchCompact rfl (fun σ h => sinv_touch s _ σ _ (Or.inr rfl) rfl rfl h) hsn
   · -- sinkProps
     rename_i hwi
     cases hs
-    refine ⟨hh, ?_, ?_⟩
+    refine ⟨hh, rfl, ?_, ?_⟩
     · simp only [WInv, hwi, markAll] at hw ⊢
-      obtain ⟨a, b, c, d, e, f⟩ := hw
-      refine ⟨a, b, c, ?_, e, f⟩
-      intro k; have := d k; simp only [List.mem_append] at this ⊢; rw [this]
+      obtain ⟨a, b, c, d, e, f, g⟩ := hw
+      refine ⟨a, b, c, ?_, e, f, g⟩
+      intro k; have := d k; simp only [g, Option.getD_some, List.mem_append] at this ⊢; rw [this]
     · exact snaps_mark s _ touchSink rfl (fun σ h => sinv_sink s _ σ rfl h) hsn
   · rename_i hwi
     cases hs
-    refine ⟨hh, ?_, ?_⟩
+    refine ⟨hh, rfl, ?_, ?_⟩
     · simp only [WInv, hwi, markAll] at hw ⊢; exact hw
     · exact snaps_mark s _ touchCompact rfl (fun σ h => sinv_touch s _ σ _ (Or.inr rfl) rfl rfl h) hsn
   · rename_i hwi
     cases hs
-    refine ⟨hh, ?_, ?_⟩
+    refine ⟨hh, rfl, ?_, ?_⟩
     · simp only [WInv, hwi, markAll] at hw ⊢
-      obtain ⟨a, b, c, d, e, f⟩ := hw
-      exact ⟨a, b, c, d, trivial, f⟩
+      obtain ⟨a, b, c, d, e, f, g⟩ := hw
+      exact ⟨a, b, c, d, trivial, f, g⟩
     · exact snaps_mark s _ touchCompact rfl (fun σ h => sinv_touch s _ σ _ (Or.inr rfl) rfl rfl h) hsn
-  · rename_i hwi
+  · -- clearRuns: `pending` is the captured list = the published runs (read under the lock)
+    rename_i hwi
     cases hs
-    refine ⟨hh, ?_, ?_⟩
+    refine ⟨hh, rfl, ?_, ?_⟩
     · simp only [WInv, hwi, markAll] at hw ⊢
-      obtain ⟨a, b, c, d, e, f⟩ := hw
+      obtain ⟨a, b, c, d, e, f, g⟩ := hw
+      simp only [g, Option.getD_some]
       exact ⟨a, b, c, d, e, f, trivial⟩
     · exact snaps_mark s _ touchCompact rfl (fun σ h => sinv_touch s _ σ _ (Or.inr rfl) rfl rfl h) hsn
   · rename_i hwi
     cases hs
-    refine ⟨hh, ?_, ?_⟩
+    refine ⟨hh, rfl, ?_, ?_⟩
     · simp only [WInv, hwi, markAll] at hw ⊢
       obtain ⟨a, b, c, d, e, f, g⟩ := hw
       refine ⟨a, b, ?_, ?_, by simp [e], f⟩
@@ -233,12 +238,12 @@ theorem snaps_set (s : State) (j : Nat) (x : Option Snap)
 
 theorem inv_readStep {h0 : Bool} {s s' : State} (j : Nat) (hi : Inv h0 s) (hs : step s (.readStep j) = some s') :
     Inv h0 s' := by
-  obtain ⟨hh, hw, hsn⟩ := hi
+  obtain ⟨hh, hrb, hw, hsn⟩ := hi
   simp only [step] at hs
   split at hs
   · -- scanI2e
     cases hs
-    refine ⟨hh, hw, snaps_set s j _ hsn ?_⟩
+    refine ⟨hh, hrb, hw, snaps_set s j _ hsn ?_⟩
     intro σ hσ
     cases hσ
     refine ⟨by simp [newSnap], by simp [newSnap], ?_, by simp [newSnap]⟩
@@ -256,7 +261,7 @@ theorem inv_readStep {h0 : Bool} {s s' : State} (j : Nat) (hi : Inv h0 s) (hs : 
     split at hs
     · rename_i hpc
       cases hs
-      refine ⟨hh, hw, snaps_set s j _ hsn ?_⟩
+      refine ⟨hh, hrb, hw, snaps_set s j _ hsn ?_⟩
       intro σ' hσ'; cases hσ'
       refine ⟨by simp, by simp, ?_, by simp⟩
       intro _ hc
@@ -264,7 +269,7 @@ theorem inv_readStep {h0 : Bool} {s s' : State} (j : Nat) (hi : Inv h0 s) (hs : 
       exact ⟨a, b, c, fun _ => rfl, fun h => by simp at h, fun h => by simp at h⟩
     · rename_i hpc
       cases hs
-      refine ⟨hh, hw, snaps_set s j _ hsn ?_⟩
+      refine ⟨hh, hrb, hw, snaps_set s j _ hsn ?_⟩
       intro σ' hσ'; cases hσ'
       refine ⟨by simp, by simp, ?_, by simp⟩
       intro _ hc
@@ -272,7 +277,7 @@ theorem inv_readStep {h0 : Bool} {s s' : State} (j : Nat) (hi : Inv h0 s) (hs : 
       exact ⟨a, b, c, fun _ => d (by omega), fun _ => rfl, fun h => by simp at h⟩
     · rename_i hpc
       cases hs
-      refine ⟨hh, hw, snaps_set s j _ hsn ?_⟩
+      refine ⟨hh, hrb, hw, snaps_set s j _ hsn ?_⟩
       intro σ' hσ'; cases hσ'
       refine ⟨by simp, by simp, ?_, by simp⟩
       intro _ hc
@@ -281,7 +286,7 @@ theorem inv_readStep {h0 : Bool} {s s' : State} (j : Nat) (hi : Inv h0 s) (hs : 
     · -- readRoots: the acquisition completes
       rename_i hpc
       cases hs
-      refine ⟨hh, hw, snaps_set s j _ hsn ?_⟩
+      refine ⟨hh, hrb, hw, snaps_set s j _ hsn ?_⟩
       intro σ' hσ'; cases hσ'
       refine ⟨by simp, by simp, by simp, ?_⟩
       intro _ hc
@@ -308,10 +313,10 @@ theorem inv_readStep {h0 : Bool} {s s' : State} (j : Nat) (hi : Inv h0 s) (hs : 
 
 theorem inv_dropSnap {h0 : Bool} {s s' : State} (j : Nat) (hi : Inv h0 s) (hs : step s (.dropSnap j) = some s') :
     Inv h0 s' := by
-  obtain ⟨hh, hw, hsn⟩ := hi
+  obtain ⟨hh, hrb, hw, hsn⟩ := hi
   simp only [step] at hs
   split at hs
-  · cases hs; exact ⟨hh, hw, snaps_set s j none hsn (by intro σ h; cases h)⟩
+  · cases hs; exact ⟨hh, hrb, hw, snaps_set s j none hsn (by intro σ h; cases h)⟩
   · cases hs
 
 theorem reach_inv {h0 : Bool} {s : State} (h : Reach (init h0) s) : Inv h0 s := by
@@ -321,6 +326,9 @@ theorem reach_inv {h0 : Bool} {s : State} (h : Reach (init h0) s) : Inv h0 s := 
     cases l with
     | commitStep => exact inv_commitStep ih hs
     | compactStep => exact inv_compactStep ih hs
+    | compactRead =>
+      have := ih.rbl
+      simp [step, this] at hs
     | readStep j => exact inv_readStep j ih hs
     | dropSnap j => exact inv_dropSnap j ih hs
 
